@@ -189,7 +189,13 @@ def build_inputs(ctx, res):
             inputs.append(("cut-reversed", [hi, lo], None))
     n_place = ctx.pick(600, 20000)
     for tag, rs in G.placements(rng, templates, n_place):
-        inputs.append(("place:" + tag.split(":")[0].rstrip("+-.0123456789e"), rs, None))
+        fam = "place:" + tag.split(":")[0].rstrip("+-.0123456789e")
+        if rng.random() < 0.3:
+            # the same placement far from the origin (PDB coordinates reach +-9999.999)
+            t = [rng.choice([-1, 1]) * rng.uniform(2000, 9000) for _ in range(3)]
+            rs = G.moved(rs, G.AXIS_PERMS[0], t)
+            fam = fam + "@far"
+        inputs.append((fam, rs, None))
     res.dist["templates"] = len(templates)
     return inputs
 
